@@ -746,6 +746,19 @@ func runC15(c *core.Ctx, ck *Check) {
 					argv = nil
 				}
 			}
+			// word order: the first two arguments swapped (sub-command before the ecosystem), the ecosystem repeated, the
+			// sub-command repeated - a front end that guesses what was meant answers where it must report an unknown ecosystem
+			if len(argv) >= 2 && r.IntN(12) == 0 {
+				switch r.IntN(3) {
+				case 0:
+					argv[0], argv[1] = argv[1], argv[0]
+				case 1:
+					argv = append([]string{argv[1]}, argv...)
+				default:
+					argv = append([]string{argv[0]}, argv...)
+				}
+				w.Count("reordered_argvs", 1)
+			}
 			// transport encodings of the same argument (percent-encoding of the comparators only / of every non-alphanumeric
 			// byte / lower-case hex, HTML entities, \uXXXX escapes, '+' for blanks): a front end that "helpfully" decodes
 			// one of them answers where the library reports a parse failure
